@@ -1,0 +1,65 @@
+//go:build verif
+
+package verifspec
+
+// Contracts for the simplified (assembly-free) overrides in compiler/natives/src/internal/bytealg and
+// compiler/natives/src/bytes (property C13): each returns what the upstream function is documented to return, for all
+// slices and strings.  Code compiled by GopherJS: int is 32 bits wide.
+
+// Equal: true exactly when the two slices have the same length and the same bytes.
+//@ func natives:internal/bytealg.Equal
+//@ property C13
+//@   word 32
+//@   assigns nothing
+//@   loop 1 invariant len(a) == len(b) && 0 <= $i1 && $i1 <= len(a)
+//@   loop 1 invariant forall(k, 0, $i1, a[k] == b[k])
+//@   ensures result == (len(a) == len(b) && forall(k, 0, len(a), a[k] == b[k]))
+
+// IndexByte: the index of the first c in b, -1 when there is none.
+//@ func natives:internal/bytealg.IndexByte
+//@ property C13
+//@   word 32
+//@   assigns nothing
+//@   loop 1 invariant 0 <= $i1 && $i1 <= len(b) && forall(k, 0, $i1, b[k] != c)
+//@   ensures result >= -1 && result < len(b)
+//@   ensures result >= 0 ==> b[result] == c && forall(k, 0, result, b[k] != c)
+//@   ensures result == -1 ==> forall(k, 0, len(b), b[k] != c)
+
+//@ func natives:internal/bytealg.IndexByteString
+//@ property C13
+//@   word 32
+//@   assigns nothing
+//@   loop 1 invariant 0 <= i && i <= len(s) && forall(k, 0, i, s[k] != c)
+//@   loop 1 decreases len(s) - i
+//@   ensures result >= -1 && result < len(s)
+//@   ensures result >= 0 ==> s[result] == c && forall(k, 0, result, s[k] != c)
+//@   ensures result == -1 ==> forall(k, 0, len(s), s[k] != c)
+
+//@ func natives:bytes.IndexByte
+//@ property C13
+//@   word 32
+//@   assigns nothing
+//@   loop 1 invariant 0 <= $i1 && $i1 <= len(s) && forall(k, 0, $i1, s[k] != c)
+//@   ensures result >= -1 && result < len(s)
+//@   ensures result >= 0 ==> s[result] == c && forall(k, 0, result, s[k] != c)
+//@   ensures result == -1 ==> forall(k, 0, len(s), s[k] != c)
+
+//@ func natives:bytes.Equal
+//@ property C13
+//@   word 32
+//@   assigns nothing
+//@   loop 1 invariant len(a) == len(b) && 0 <= $i1 && $i1 <= len(a)
+//@   loop 1 invariant forall(k, 0, $i1, a[k] == b[k])
+//@   ensures result == (len(a) == len(b) && forall(k, 0, len(a), a[k] == b[k]))
+
+// Compare: lexicographic order.  The result is 0 exactly for equal slices; otherwise it is decided by the first
+// position where the slices differ, or, when one is a proper prefix of the other, by the lengths.
+//@ func natives:bytes.Compare
+//@ property C13
+//@   word 32
+//@   assigns nothing
+//@   loop 1 invariant 0 <= $i1 && $i1 <= len(a) && $i1 <= len(b) && forall(k, 0, $i1, a[k] == b[k])
+//@   ensures result == -1 || result == 0 || result == 1
+//@   ensures result == 0 ==> len(a) == len(b) && forall(k, 0, len(a), a[k] == b[k])
+//@   ensures result == -1 ==> exists(m, 0, len(a) + 1, m <= len(b) && forall(k, 0, m, a[k] == b[k]) && ((m == len(a) && m < len(b)) || (m < len(a) && m < len(b) && a[m] < b[m])))
+//@   ensures result == 1 ==> exists(m, 0, len(a) + 1, m <= len(b) && forall(k, 0, m, a[k] == b[k]) && ((m == len(b) && m < len(a)) || (m < len(a) && m < len(b) && a[m] > b[m])))
